@@ -760,6 +760,14 @@ impl<F: Read + Write + Seek> Package<F> {
             &make_validation_table(long_string_refs),
             &validation_rows,
         )?;
+        // Files written by other tools often have _Validation rows for tables
+        // that they don't contain; remove any such stale rows for this table
+        // name, so that the new rows cannot collide with them.
+        if self.tables.contains_key(VALIDATION_TABLE_NAME) {
+            self.delete_rows(Delete::from(VALIDATION_TABLE_NAME).with(
+                Expr::col("Table").eq(Expr::string(table_name.as_str())),
+            ))?;
+        }
         self.insert_rows(Insert::into(COLUMNS_TABLE_NAME).rows(columns_rows))?;
         self.insert_rows(Insert::into(TABLES_TABLE_NAME).rows(tables_rows))?;
         let table = Table::new(table_name.clone(), columns, long_string_refs);
